@@ -1,14 +1,92 @@
-(* C11 - The alternative decoder implementation is observably equivalent. (statements added as they are proved) *)
-From Coq Require Import NArith ZArith List Bool.
-From SV.Dec Require Import Ty Val Parse Text Num Common FieldMap StdBind SonicBind DecProofs.
+(* C11 - The alternative decoder implementation (SONIC_USE_OPTDEC, +SONIC_USE_FASTMAP) is observably equivalent.
+   Only statements, closed by `exact`, with Print Assumptions beneath each.
+   Model: Dec/SonicBind.v with the implementation parameter `impl` (Jit | Opt | OptFast). *)
+From Coq Require Import NArith ZArith List Bool String.
+From SV.Dec Require Import Ty Val Parse ParseMono Text Num Common FieldMap StdBind SonicBind DecProofs Witness OptProofs.
 Import ListNotations.
+Open Scope string_scope.
 
-(* placeholder until Dec/OptProofs.v: the binder of the proved fragment does not depend on the hash function
-   used by the field table, so the three implementations, which share it, agree on field selection *)
-Theorem C11_binder_hash_independent : forall (h1 h2 : bytes -> N) (o : opts) t, frag t = true ->
-  forall j v, strict_jv j = true -> guards o j -> sonic_bind h1 o t j v = sonic_bind h2 o t j v.
-Proof.
-  intros h1 h2 o t F j v S G.
-  rewrite (proj1 (bind_agree_all h1 o) t F j v S G), (proj1 (bind_agree_all h2 o) t F j v S G). reflexivity.
-Qed.
-Print Assumptions C11_binder_hash_independent.
+(* binder level: on the fragment (bool, every integer width, float64, string, interface{}, pointers, slices, arrays,
+   structs with unquoted fields of pairwise distinct ASCII names; json.Number excluded), for every document whose
+   strings all three unquoters read alike, whose objects have pairwise distinct keys (after lower-casing) and whose
+   arrays hold no null, every initial value without hidden slice elements, every option set and every hash function:
+   the alternative binder (with or without the fast map) returns exactly what the default one returns *)
+Theorem C11_binder_equiv_partial : forall (h : bytes -> N) (o : opts) t, frag11 t = true ->
+  forall im j v, is_opt im = true -> guards11 o j -> nh v = true ->
+  sonic_bind h im o t j v = sonic_bind h Jit o t j v.
+Proof. exact (fun h o => proj1 (equiv_all h o)). Qed.
+Print Assumptions C11_binder_equiv_partial.
+
+(* on input bytes: for every valid document (accepted by the strict reader, well-formed UTF-8, no number beyond
+   binary64) satisfying the conditions above, Unmarshal gives the same error-or-not and the same value under the three
+   implementations *)
+Theorem C11_equiv : forall (h : bytes -> N) (o : opts) im t s v j,
+  is_opt im = true -> frag11 t = true -> nh v = true ->
+  utf8_valid s = true -> lparse true s = Some j -> doc_ok o j ->
+  sonic_unmarshal h im o t s v = sonic_unmarshal h Jit o t s v.
+Proof. exact equiv_top. Qed.
+Print Assumptions C11_equiv.
+
+(* every structurally malformed input is rejected by all three implementations, for every destination type *)
+Theorem C11_malformed_rejected : forall (h : bytes -> N) (o : opts) im t s v,
+  let s' := if o_validate o then (if utf8_valid s then s else utf8_correct s) else s in
+  lparse false s' = None -> sonic_unmarshal h im o t s v = Err.
+Proof. exact malformed_rejected. Qed.
+Print Assumptions C11_malformed_rejected.
+
+(* what the strict reader accepts, the lenient reader accepts with the same tree (used by both theorems) *)
+Theorem C11_reader_monotone : forall s j, lparse true s = Some j -> lparse false s = Some j.
+Proof. exact lparse_mono. Qed.
+Print Assumptions C11_reader_monotone.
+
+(* the hypotheses are satisfiable, under both stock configurations, and the common result is a value *)
+Example C11_equiv_nonvacuous : forall o, (o = opts_std \/ o = opts_default) ->
+  exists j, lparse true ex11_in = Some j /\ doc_ok o j /\ frag11 ex_ty = true /\ nh ex_v0 = true /\ utf8_valid ex11_in = true /\
+            sonic_unmarshal h1 Opt o ex_ty ex11_in ex_v0 = sonic_unmarshal h1 Jit o ex_ty ex11_in ex_v0 /\
+            sonic_unmarshal h1 OptFast o ex_ty ex11_in ex_v0 = sonic_unmarshal h1 Jit o ex_ty ex11_in ex_v0 /\
+            exists r, sonic_unmarshal h1 Jit o ex_ty ex11_in ex_v0 = Ok r.
+Proof. exact equiv_example. Qed.
+
+(* ------------------------------------------------------------------ divergences the faithful model contains
+   (each witness is replayed on the three real back ends from corpus/C01; known_findings.d/C11.json) *)
+
+Theorem C11_float_inf_refuted :
+  let t := TStruct (fld "n" TNum FNil) in
+  sonic_unmarshal h1 Jit opts_std t (b "{""n"":1e400}") (VList [VStr []] []) = Ok (VList [VStr (b "1e400")] []) /\
+  sonic_unmarshal h1 Opt opts_std t (b "{""n"":1e400}") (VList [VStr []] []) = Err /\
+  sonic_unmarshal h1 Jit opts_std (TStruct (fld "a" (TInt I64) FNil)) (b "{""zz"":1e400}") (VList [VInt 0] []) = Ok (VList [VInt 0] []) /\
+  sonic_unmarshal h1 Opt opts_std (TStruct (fld "a" (TInt I64) FNil)) (b "{""zz"":1e400}") (VList [VInt 0] []) = Err.
+Proof. exact float_inf_refuted. Qed.
+
+Theorem C11_slice_null_element_refuted :
+  sonic_unmarshal h1 Jit opts_std (TSlice TStr) (b "[null]") VNil = Ok (VList [VStr []] []) /\
+  sonic_unmarshal h1 Opt opts_std (TSlice TStr) (b "[null]") VNil = Err.
+Proof. exact slice_null_element_refuted. Qed.
+
+Theorem C11_slice_grow_refuted :
+  let t := TSlice (TStruct (fld "A" (TInt I64) (fld "B" (TInt I64) FNil))) in
+  let v := VList [] [VList [VInt 7; VInt 8] []] in
+  let s := b "[{""A"":1},{""A"":2}]" in
+  sonic_unmarshal h1 Jit opts_std t s v = Ok (VList [VList [VInt 1; VInt 8] []; VList [VInt 2; VInt 0] []] []) /\
+  sonic_unmarshal h1 Opt opts_std t s v = Ok (VList [VList [VInt 1; VInt 0] []; VList [VInt 2; VInt 0] []] []).
+Proof. exact slice_grow_refuted. Qed.
+
+Theorem C11_map_string_null_refuted :
+  sonic_unmarshal h1 Jit opts_std (TMap KStr TStr) (b "{""k"":null}") VNil = Ok (VMap [(VStr (b "k"), VStr [])]) /\
+  sonic_unmarshal h1 Opt opts_std (TMap KStr TStr) (b "{""k"":null}") VNil = Err.
+Proof. exact map_string_null_refuted. Qed.
+
+Theorem C11_u32_key_refuted :
+  sonic_unmarshal h1 Jit opts_std (TMap (KInt U32) (TInt I64)) (b "{""4294967296"":1}") VNil = Ok (VMap [(VInt 0, VInt 1)]) /\
+  sonic_unmarshal h1 Opt opts_std (TMap (KInt U32) (TInt I64)) (b "{""4294967296"":1}") VNil = Err.
+Proof. exact u32_key_refuted. Qed.
+
+Theorem C11_f32_edge_refuted :
+  sonic_unmarshal h1 Jit opts_std TF32 (b "3.4028235e38") (VFlt 0) = Ok (VFlt 2139095039) /\
+  sonic_unmarshal h1 Opt opts_std TF32 (b "3.4028235e38") (VFlt 0) = Err.
+Proof. exact f32_edge_refuted. Qed.
+
+Theorem C11_ptrptr_null_refuted :
+  sonic_unmarshal h1 Jit opts_std (TPtr (TPtr TUnm)) (b "null") VNil = Err /\
+  sonic_unmarshal h1 Opt opts_std (TPtr (TPtr TUnm)) (b "null") VNil = Ok VNil.
+Proof. exact ptrptr_null_refuted_11. Qed.
